@@ -258,6 +258,7 @@ func main() {
 		}(i, t)
 	}
 	quiet := time.Duration(atoi("quiet_ms")) * time.Millisecond
+	quietTimeouts, unfinishedAtFreeRun := 0, 0
 	note := func(e event) {
 		t := threads[e.tid]
 		if e.point == "" {
@@ -293,11 +294,17 @@ func main() {
 					break waitLoop
 				}
 			case <-time.After(quiet):
+				quietTimeouts++
 				break waitLoop // blocked on a real lock or channel; it continues when that is released
 			}
 		}
 	}
 	// free run
+	for _, t := range threads {
+		if !t.done {
+			unfinishedAtFreeRun++
+		}
+	}
 	free.Store(true)
 	for _, t := range threads {
 		if t.parked {
@@ -415,7 +422,8 @@ wait:
 		outs = append(outs, tout{t.Name, t.Op.Kind, hex.EncodeToString(t.Op.Key), hex.EncodeToString(t.Op.Val), t.Status, t.Res, t.Found, t.Out, t.Start, t.End})
 	}
 	var sb bytes.Buffer
-	json.NewEncoder(&sb).Encode(map[string]interface{}{"threads": outs, "stuck": stuck, "events": log, "final": final, "final_flushed": finalFlushed, "final_reopened": finalReopened, "flushes_in_free_run": nflush})
+	json.NewEncoder(&sb).Encode(map[string]interface{}{"threads": outs, "stuck": stuck, "events": log, "final": final, "final_flushed": finalFlushed, "final_reopened": finalReopened, "flushes_in_free_run": nflush,
+		"quiet_timeouts": quietTimeouts, "unfinished_at_free_run": unfinishedAtFreeRun})
 	os.Stdout.Write(sb.Bytes())
 	if len(stuck) > 0 {
 		os.Exit(3) // leave the blocked goroutines behind
